@@ -63,7 +63,7 @@ class Scratch:
         flags = ["--cfg", "nucleo_verif"]
         if kani:
             # the Vec::push stub is generic over the allocator (Kani's toolchain is a nightly)
-            flags += ["-Zcrate-attr=feature(allocator_api)"]
+            flags += ["-Zcrate-attr=feature(allocator_api)", "-Zcrate-attr=feature(pattern)"]
         if small:
             flags += ["--cfg", "nucleo_verif_small"]
         for c in extra_cfg:
